@@ -203,7 +203,7 @@ add("C07",
     "certificate for that polyhedron proves that EVERY in-bound intensity vector has error > s. (F over R) Poisson: the rational Frank-Wolfe gap at a point bounds its WEIGHTED "
     "negative-log-likelihood excess over EVERY in-bound vector with positive capture (from ln t <= t - 1); through an untrusted reference point x0 the excess of the returned point is "
     "bounded by tangent(x -> x0) + gap(x0), tight to first order; the likelihood is minimised exactly at capture = target. Verdicts (bounds, positivity, prediction, reference "
-    "certificate / Farkas certificate at error - 1e-3, in-gamut reproduction by poisson, excitation and gaussian) evaluated in the Coq VM on every fit; Poisson cases carry per-receptor "
+    "certificate / Farkas certificate at error - 3e-3 (the accuracy of the default SCS bisection), in-gamut reproduction by poisson, excitation and gaussian) evaluated in the Coq VM on every fit; Poisson cases carry per-receptor "
     "weights and are fitted as one row of a batch with several batch sizes.",
     TRUST + "Axioms for the Poisson theorems: the standard library's real-number axioms + Classical_Prop.classic (stdlib ln/exp), as printed by Props/C07.v. Solvers (CLARABEL, SCS "
     "bisection) opaque; Farkas multipliers from HiGHS (untrusted). The Poisson certificate needs a bounded box: the asserted stream uses finite bounds (infinite ub not covered). "
